@@ -37,12 +37,14 @@ Definition spec_files (d : dict) : option (bytes * N * list (bytes * N)) :=     
       match map_get k_name i, map_get k_piece_length i with
       | Some (BStr name), Some (BInt pl) =>
           if (0 <? pl)%Z then
+            let multi := match map_get k_files i with
+                         | Some (BList l) => Some (name, Z.to_N pl, Metainfo.filter_map spec_entry l)
+                         | _ => None
+                         end in
             match map_get k_length i with
-            | Some (BInt z) => if (0 <=? z)%Z && (z <? 18446744073709551616)%Z then Some (name, Z.to_N pl, [(name, Z.to_N z)]) else None
-            | _ => match map_get k_files i with
-                   | Some (BList l) => Some (name, Z.to_N pl, Metainfo.filter_map spec_entry l)
-                   | _ => None
-                   end
+            | Some (BInt z) =>         (* a length that is not a u64 is no length: the files list decides *)
+                if (0 <=? z)%Z && (z <? 18446744073709551616)%Z then Some (name, Z.to_N pl, [(name, Z.to_N z)]) else multi
+            | _ => multi
             end
           else None
       | _, _ => None
